@@ -966,7 +966,7 @@ func main() {
 			if r.RestartBlocked {
 				run.Add("e2e_restart_blocked", 1)
 			}
-			v.Message += fmt.Sprintf("\n  end-to-end (real LeaderController, RF=1): WriteBlock results %v; election on the running node NewTerm(2)+BecomeLeader(2): %s; restart right after the writes: NewLeaderController: %s, then NewTerm(2)+BecomeLeader(2): %s",
+			v.Message += fmt.Sprintf("\n  end-to-end (real public Write handler + LeaderController, RF=1): write results %v; election on the running node NewTerm(2)+BecomeLeader(2): %s; restart right after the writes: NewLeaderController: %s, then NewTerm(2)+BecomeLeader(2): %s",
 				r.WriteErrs, r.BecomeLeader2, r.Restart, r.BecomeLeader3)
 			rp := v.Replay.(map[string]any)
 			rp["e2e"] = r
@@ -1054,5 +1054,10 @@ func doReplay(path string) int {
 	for _, v := range o.viols {
 		fmt.Printf("VIOLATION property=C13 replay=%s\n  %s: %s\n", path, v.Key, v.Message)
 	}
+	scratch := ev.Scratch("c13r")
+	defer os.RemoveAll(scratch)
+	r := e2e(scratch, log)
+	fmt.Printf("  end-to-end (real public Write handler + LeaderController, RF=1): write results %v; election on the running node NewTerm(2)+BecomeLeader(2): %s; restart right after the writes: NewLeaderController: %s, then NewTerm(2)+BecomeLeader(2): %s\n",
+		r.WriteErrs, r.BecomeLeader2, r.Restart, r.BecomeLeader3)
 	return 1
 }
